@@ -1,5 +1,4 @@
-(* Concrete reports computed by the model (vm_compute): the witness of the IPython-cell row
-   loss, and a worked example showing that the hypotheses of the C10 theorems are
+(* Concrete reports computed by the model (vm_compute): an IPython-cell example, and a worked example showing that the hypotheses of the C10 theorems are
    satisfiable and what the rendered text looks like. *)
 From Coq Require Import QArith.
 From LP Require Import Prelude.Py Report.LayoutStr Report.Layout Report.LayoutProofs Report.Cells.
@@ -54,14 +53,14 @@ Qed.
 Theorem duplicate_example :
   let F := py_formatter 1 None in
   option_map (fun b => map r_cells (b_rows b))
-             (show_func F (fun _ _ => Missing) false false ("f.py", 1, "f") [(1, 5, 10); (1, 7, 30)])
+             (show_func F (fun _ _ => Missing) false ("f.py", 1, "f") [(1, 5, 10); (1, 7, 30)])
   = Some [("7", " 30.0", "  4.3", " 75.0")].
 Proof. vm_compute. reflexivity. Qed.
 
 (* One report, two functions: `f` in a file on disk and `c0` defined in an IPython cell (its
-   source lives only in linecache.cache).  show_func(f) calls linecache.clearcache(); the block
-   of c0, printed after it, has its header and NO rows: both recorded lines are lost.  Printed
-   alone (or before f) the same function shows both lines. *)
+   source lives only in linecache.cache).  The block of c0, printed after the block of f, shows
+   its three lines with both recorded lines on their rows (before /repo 6c987c9 it had a header
+   and no rows: show_func(f) called linecache.clearcache()). *)
 Definition ip_cell : string := "<ipython-input-3-abcdef>".
 Definition ip_st : stats :=
   [(("/src/a.py", 1, "f"), [(2, 1, 100)]);
@@ -71,30 +70,9 @@ Definition ip_env : env :=
     if String.eqb fn ip_cell then Cell ["def c0(y):"; "    y += 1"; "    return y"]
     else Found ["def f(x):"; "    return x"].
 
-Theorem ipython_cell_rows_witness :
-  exists (st : stats) (k : key) (tm : list timing) (E : env) (o : options) (sub : list string),
-    NoDup (map fst st) /\ In (k, tm) st /\ NoDup (map t_line tm) /\ tm <> []
-    /\ E (fst (fst k)) (snd (fst k)) = Cell sub
-    /\ (forall t, In t tm -> snd (fst k) <= t_line t < snd (fst k) + Z.of_nat (length sub))
-    /\ o_details o = true
-    (* alone, every recorded line of k is on a row *)
-    /\ (forall t, In t tm ->
-          exists b, In b (rp_blocks (show_text_py 1 None E o [(k, tm)])) /\
-                    In (t_line t) (map r_lineno (b_rows b)))
-    (* after a function whose file is on disk, its block is there but has no rows *)
-    /\ (exists b, In b (rp_blocks (show_text_py 1 None E o st)) /\ b_key b = k /\ b_rows b = []).
-Proof.
-  exists ip_st, (ip_cell, 1, "c0"), [(2, 1, 50); (3, 1, 60)], ip_env, (mkOpts false false false true),
-         ["def c0(y):"; "    y += 1"; "    return y"].
-  split; [|split; [|split; [|split; [|split; [|split; [|split; [|split]]]]]]].
-  - repeat constructor; cbn; intuition discriminate.
-  - right. left. reflexivity.
-  - repeat constructor; cbn; intuition discriminate.
-  - discriminate.
-  - reflexivity.
-  - intros t [<-|[<-|[]]]; cbn; lia.
-  - reflexivity.
-  - intros t Ht. eexists. split; [vm_compute; left; reflexivity|].
-    destruct Ht as [<-|[<-|[]]]; vm_compute; tauto.
-  - eexists. split; [vm_compute; right; left; reflexivity|]. split; reflexivity.
-Qed.
+Theorem ipython_cell_example :
+  map (fun b => (b_key b, map (fun r => (r_lineno r, c_hits (r_cells r), r_text r)) (b_rows b)))
+      (rp_blocks (show_text_py 1 None ip_env (mkOpts false false false true) ip_st))
+  = [(("/src/a.py", 1, "f"), [(1, "", "def f(x):"); (2, "1", "    return x")]);
+     ((ip_cell, 1, "c0"), [(1, "", "def c0(y):"); (2, "1", "    y += 1"); (3, "1", "    return y")])].
+Proof. vm_compute. reflexivity. Qed.
